@@ -49,6 +49,8 @@ def plan(tier, seed):
     # (3) the tunable estimates for U / L subscripts too small: diagnostic abort instead of an out-of-bounds write
     for i, (n, pat, pv) in enumerate(sel[:4]):
         qs.append(sat_full_query('C05', n, pat, pv, tuple(range(n)), CONFIGS[0], dyn=False, fills={'VH_FILL7': 1 + i % 2, 'VH_FILL8': 2 + i}))
+        # L-subscript estimate too small while the U estimate is generous (each pool has its own limit)
+        qs.append(sat_full_query('C05', n, pat, pv, tuple(range(n)), CONFIGS[0], dyn=False, fills={'VH_FILL7': 4 * n * n, 'VH_FILL8': 1 + i % 2}))
     return qs
 
 META = {
